@@ -25,7 +25,8 @@ static void q_neighbours(const uint8_t *k, size_t n) {
 }
 
 typedef struct { tcfg cfg; int n; int key[6]; int vs[6]; char src; int ul; } lcase;
-static u5key U[160]; static size_t nU;
+static u5key U[400]; static size_t nU;
+static size_t gen_universe(int ul) { return ul == 16 ? u16_gen(U) : u5_gen(U, ul); }
 static const size_t VSZ[4] = { 1, 600, 0, 1100 };
 static void render(char *b, size_t n, void *ctx) {
 	lcase *c = ctx; int o = snprintf(b, n, "Q:%d:%zu:%zu:%d:", c->cfg.comp, c->cfg.restart, c->cfg.prefix, c->ul);
@@ -56,7 +57,7 @@ static void run(lcase *c) {
 	const struct mtbl_source *s = mtbl_reader_source(r);
 	/* query set: the whole small universe + neighbours of stored keys and of index separators */
 	nQ = 0;
-	for (size_t i = 0; i < (nU < 31 ? nU : 31); i++) q_add(U[i].b, U[i].n);
+	if (c->ul != 16) for (size_t i = 0; i < (nU < 31 ? nU : 31); i++) q_add(U[i].b, U[i].n);
 	for (int i = 0; i < c->n; i++) q_neighbours(e[i].k, e[i].kl);
 	uint64_t sig = vh_mix(c->cfg.restart, f.nblocks);
 	for (size_t b = 0; b < f.nblocks; b++) {
@@ -80,7 +81,7 @@ static void run(lcase *c) {
 		check_iter(c, mtbl_source_get_prefix(s, q, ql), want, nw, what);
 	}
 	/* ranges over a reduced query set: stored keys, separators and their neighbours (everything after the universe part) + a few universe keys */
-	int r0 = (int) (nU < 31 ? nU : 31); if (nQ - r0 > 26) r0 = nQ - 26;
+	int r0 = c->ul == 16 ? 0 : (int) (nU < 31 ? nU : 31); if (nQ - r0 > 26) r0 = nQ - 26;
 	int start = r0 > 4 ? r0 - 4 : 0;
 	for (int a = start; a < nQ; a++) for (int b = start; b < nQ; b++) {
 		tkv want[6]; size_t nw = 0;
@@ -103,7 +104,7 @@ int main(int argc, char **argv) {
 	if (vh_case_arg) {
 		int off = 0; const char *s = vh_case_arg;
 		if (sscanf(s, "Q:%d:%zu:%zu:%d:%n", &c.cfg.comp, &c.cfg.restart, &c.cfg.prefix, &c.ul, &off) < 4) return 2;
-		nU = u5_gen(U, c.ul);
+		nU = gen_universe(c.ul);
 		s += off; c.n = 0;
 		while (*s && *s != ' ' && c.n < 6) { int k, v, o2 = 0; if (sscanf(s, "%d.%d,%n", &k, &v, &o2) < 2) break; c.key[c.n] = k; c.vs[c.n] = v; c.n++; s += o2; }
 		run(&c); vh_count("transitions", n_lookups); return vh_finish();
@@ -122,6 +123,17 @@ int main(int argc, char **argv) {
 				c.n = 2; c.key[0] = (int) i; c.key[1] = (int) j;
 				for (int v = 0; v < 5; v++) { c.vs[0] = VV[v][0]; c.vs[1] = VV[v][1]; run(&c); }
 			}
+			if (vh_too_many()) goto done;
+		}
+	} else if (!strcmp(mode, "sep16")) {
+		/* every ordered pair of the 320-key universe whose first differing bytes are adjacent values or equal-prefix related, cut between them */
+		c.ul = 16; nU = gen_universe(16);
+		for (size_t i = 0; i < nU; i++) for (size_t j = i + 1; j < nU; j++) {
+			size_t d = 0; while (d < U[i].n && d < U[j].n && U[i].b[d] == U[j].b[d]) d++;
+			if (d < U[i].n && d < U[j].n && U[j].b[d] > U[i].b[d] + 1) continue;          /* plain one-byte increment: covered by the other sweeps */
+			if (!vh_mine(idx++)) continue;
+			if (vh_time_up()) goto done;
+			for (int cf = 0; cf < 2; cf++) { c.cfg.comp = 0; c.cfg.restart = cf ? 1 : 16; c.cfg.prefix = 0; c.n = 2; c.key[0] = (int) i; c.key[1] = (int) j; c.vs[0] = 1; c.vs[1] = 1; run(&c); }
 			if (vh_too_many()) goto done;
 		}
 	} else if (!strcmp(mode, "sets")) {
